@@ -27,6 +27,7 @@ class attach_trace:
     '<its caller>+checked'"""
     def __init__(self):
         self.log = {}
+        self.seq = 0
     def __enter__(self):
         import sys
         from paulie.classifier import morph_factory as mf
@@ -39,7 +40,8 @@ class attach_trace:
             site = f.f_code.co_name
             if site == "append_to_center" and f.f_back is not None:
                 site = f.f_back.f_code.co_name + "+checked"
-            log[str(v)] = "%d:%s" % (len(log), site)      # order of attachment : step
+            self.seq += 1
+            log[str(v)] = "%d:%s" % (self.seq, site)      # order of the event : step
             return orig(this, v, lit)
         mf.MorphFactory.append = append
         self.orig_replace = mf.MorphFactory.replace
@@ -47,7 +49,8 @@ class attach_trace:
         def replace(this, v, v_new):
             # an equivalent vertex takes the place of v: it inherits the step that attached v
             if str(v) in log:
-                log[str(v_new)] = log[str(v)] + ">" + sys._getframe(1).f_code.co_name
+                self.seq += 1
+                log[str(v_new)] = log[str(v)] + ">" + "%d:replace@%s" % (self.seq, sys._getframe(1).f_code.co_name)
             return orig_replace(this, v, v_new)
         mf.MorphFactory.replace = replace
         return self
